@@ -15,7 +15,7 @@ Open Scope R_scope.
 
 Definition Rneg (x : R) : bool := if Rlt_dec x 0 then true else false.
 Definition Renv (Fn : nat -> R -> R) (Ic : nat -> nat -> R) : lenv RFld :=
-  LEnv RFld exp sin cos Rabs PI (fun _ => true) Rneg Fn Ic.
+  LEnv RFld exp sin cos Rabs PI (fun _ => true) Rneg Fn Ic (fun _ x => x).
 
 (* ---- normal forms as real functions -------------------------------------------------------------------- *)
 Fixpoint nf_fun (N : nf RFld) (t : R) : R :=
